@@ -2,6 +2,7 @@ package props
 
 import (
 	"fmt"
+	"pgregory.net/rapid"
 	"regexp"
 	"strings"
 	"testing"
@@ -39,7 +40,7 @@ func checkC19(c *ProgCase) *Outcome {
 	if s := domainSkip(r); s != "" {
 		return skip(s)
 	}
-	if strings.ContainsAny(r.Src, "\n\r") {
+	if strings.Contains(r.Src, "\n") {
 		return skip("multi-line-source")
 	}
 	// the reference's list of evaluated terms
@@ -304,13 +305,25 @@ func fmtTerms(ts []term) string {
 
 var c19opt = gen.ProgOpt{Fuel: 4, Partial: true, Sugar: true, Maybe: true, Times: true, Harness: true, Poison: true, HostEnv: true}
 
-var c19 = Register(&Prop[ProgCase]{ID: "C19", Name: "debug-record", Gen: genProgCaseNoPick(c19opt), Check: checkC19})
+// withBlanks: the blank between tokens drawn from a blank, several blanks, a tab, a carriage
+// return (all white space for the lexer; debug mode only refuses line feeds)
+func withBlanks(g func(t *rapid.T) *ProgCase) func(t *rapid.T) *ProgCase {
+	return func(t *rapid.T) *ProgCase {
+		c := g(t)
+		if !c.Print.Newlines {
+			c.Print.Blank = pick2(t, []string{"", "", "", "  ", "\t", "\r", " \r "})
+		}
+		return c
+	}
+}
+
+var c19 = Register(&Prop[ProgCase]{ID: "C19", Name: "debug-record", Gen: withBlanks(genProgCaseNoPick(c19opt)), Check: checkC19})
 
 var c19apiOpt = gen.ProgOpt{Fuel: 4, Partial: true, Sugar: true, Maybe: true, Times: true, Harness: false, Poison: false, HostEnv: true}
-var c19api = Register(&Prop[ProgCase]{ID: "C19", Name: "debug-api", Gen: genProgCase(c19apiOpt, nil), Check: checkC19})
+var c19api = Register(&Prop[ProgCase]{ID: "C19", Name: "debug-api", Gen: withBlanks(genProgCase(c19apiOpt, nil)), Check: checkC19})
 
 func TestC19(t *testing.T) {
-	R.Rule = "accepted single-line programs (ASCII and non-ASCII identifiers and strings, sugar, unevaluated lazy branches, failing operands) over conforming environments; oracle: (a) yae.Debug returns the same value / failure as Eval and the reference, with the environment as a Go struct and again as map[string]interface{} after a call with the same source over a differently typed map of the same Go type; (b) closure.DebugCompile with a debug.Record read through the hook records exactly the reference evaluator's evaluated variable / call / member / subscript terms, in completion order, each with its value and the column of its own token + 1 (identifier start, operator token, '(' of a call, '.', '['); (c) Render does not fail, its first line is the source and every recorded value appears at its column on a later line (a value whose text has line breaks on consecutive lines, every piece at that column); (d) a second and third evaluation of the same compiled expression with the same record give the same entries and report; non-trivial = >= 3 recorded terms and an unevaluated branch, a non-ASCII rune before a recorded term, or two values competing for a line"
+	R.Rule = "accepted single-line programs (ASCII and non-ASCII identifiers and strings, blanks / tabs / carriage returns between tokens, sugar, unevaluated lazy branches, failing operands) over conforming environments; oracle: (a) yae.Debug returns the same value / failure as Eval and the reference, with the environment as a Go struct and again as map[string]interface{} after a call with the same source over a differently typed map of the same Go type; (b) closure.DebugCompile with a debug.Record read through the hook records exactly the reference evaluator's evaluated variable / call / member / subscript terms, in completion order, each with its value and the column of its own token + 1 (identifier start, operator token, '(' of a call, '.', '['); (c) Render does not fail, its first line is the source and every recorded value appears at its column on a later line (a value whose text has line breaks on consecutive lines, every piece at that column); (d) a second and third evaluation of the same compiled expression with the same record give the same entries and report; non-trivial = >= 3 recorded terms and an unevaluated branch, a non-ASCII rune before a recorded term, or two values competing for a line"
 	R.Assume = []string{"ref.Eval's completion order; model.Print's token positions; lazy functions that force a thunk twice (lz_pick) are outside the domain (one term, two evaluations)"}
 	reportKnown(t, "C19")
 	runRegress(t, "C19")
